@@ -539,6 +539,10 @@ def rel_epoch(ctx, spec, x0, t0, t2, shift_s):
 # generators
 # ---------------------------------------------------------------------------------------------
 RP_MIN = 6600.0
+# The repository's ScheduledImpulse root function returns exactly 0 while |t - te| < 1e-15; after the restart at
+# te + spacing(te) that is still the case when te < ~4.5 s, so the event re-triggers (and propagateBulk then crashes on
+# an empty t_eval slice).  That is event bookkeeping (C01), not propagation: the no-op events used here stay at te >= 16 s.
+TE_MIN = 16.0
 
 
 def _rand_orbit(rng, cls=None):
@@ -689,6 +693,8 @@ def _tb_case(ctx, rng, i):
     spec = _tb_spec(rng)
     x0 = _rand_orbit(rng)
     t0 = _rand_t0(rng)
+    if rel in ("event", "bulk_event"):
+        t0 += TE_MIN  # see TE_MIN
     ttype = "scenario" if rng.random() < 0.2 else "float"
     big = (not q) and rng.random() < 0.15
     max_s, max_rev = (86400.0, 20.0) if big else ((7200.0, 1.5) if q else (21600.0, 4.0))
@@ -772,6 +778,8 @@ def _sp_case(ctx, rng, i):
     spec = _sp_spec(rng, q, reduce=(rel == "reduces"))
     x0 = _rand_orbit(rng)
     t0 = rng.choice([0.0, 0.0, float(rng.randrange(0, 86400)), float(rng.randrange(0, 7 * 86400))])
+    if rel == "event":
+        t0 += TE_MIN
     per = K.period(x0, MU)
     if q:
         dt = float(rng.choice([30, 60, 120, 300, 600, rng.randrange(20, 900)]))
